@@ -35,6 +35,9 @@ func mkParams(ps []specParam) []*runtimev2.Param {
 			q.Val = func() any { return d }
 		case "var":
 			q.Variable = true
+		case "varopt": // both marks at once: variadic and given a default
+			q.Variable = true
+			q.Val = func() any { return []any{} }
 		}
 		out[i] = q
 	}
